@@ -446,17 +446,18 @@ Fixpoint rpcf_spec_rows (strict : bool) (memo : list (N * N)) (ops : list rop) :
 Definition rpcf_spec_ok (c : rpcf_case) : bool := rpcf_spec_rows (rf_strict c) [] (rf_ops c).
 
 (* ------------------------------------------------------------------ RPC through rpc.NewServer(ServerConfig) *)
-Record rpcn_case := mkrn { rn_auth : bool; rn_strict : bool; rn_steps : list rstep }.
+Record rpcn_case := mkrn { rn_auth : bool; rn_strict : bool; rn_proxy : bool; rn_steps : list rstep }.
 
-Fixpoint rpcn_rows (auth strict : bool) (cache : list (N * N)) (steps : list rstep) : bool :=
+Fixpoint rpcn_rows (auth strict proxy : bool) (cache : list (N * N)) (steps : list rstep) : bool :=
   match steps with
   | [] => true
   | s :: r =>
-      let '(cache', code) := server_config_gate auth strict cache (store_of s) (rs_md s) in
-      (code =? rs_code s) && rpcn_rows auth strict cache' r
+      let md := if proxy then proxy_md (rs_md s) else rs_md s in
+      let '(cache', code) := server_config_gate auth strict cache (store_of s) md in
+      (code =? rs_code s) && rpcn_rows auth strict proxy cache' r
   end.
 
-Definition rpcn_model_ok (c : rpcn_case) : bool := rpcn_rows (rn_auth c) (rn_strict c) [] (rn_steps c).
+Definition rpcn_model_ok (c : rpcn_case) : bool := rpcn_rows (rn_auth c) (rn_strict c) (rn_proxy c) [] (rn_steps c).
 
 (* Spec: without auth every call is served; with auth the decision table, strict = StrictControl *)
 Definition rpcn_spec_ok (c : rpcn_case) : bool :=
